@@ -169,6 +169,9 @@ class SafeText:
                 break
 
 
+LATER_RULES = ' Later rules: (R3.5) position-based splices in a loop run back to front; (R3.6) a line inserted at an index found by prefix tests on lines needs a validated result; (R3.7) whole-module rollback points also consult a compile oracle; (R3.8) regex-only whitespace editors are decided on the regex AST (whitespace only, ends at a line boundary, puts a line break back); (R3.9) a deletion range widened by a regex match cannot cross a line break.'
+
+
 def check(prog: Program, tier: str) -> Result:
     res = Result(
         "C03",
@@ -188,6 +191,7 @@ def check(prog: Program, tier: str) -> Result:
                    "statements of is_valid_python, calls of rule functions in the pipeline; an instance is non-trivial "
                    "when it carries a validity/rollback obligation"),
     )
+    res.explanation += LATER_RULES
     res.trusted_base = ["CPython ast", "path-condition engine sa/pathcond.py", "anchor table: " + ", ".join(f"{m}.{q}" for m, q in ANCHORS)]
     res.assumptions = ["core.is_valid_python is the validity oracle (its own shape is checked by R3.4)",
                        "strings are immutable: a validity fact about a variable version stays true"]
